@@ -18,6 +18,7 @@ import copy
 import inspect
 import json
 import random
+import re
 
 from harness import core
 from harness import coqemit as E
@@ -37,7 +38,8 @@ def gen_type(rnd, depth=0, allow_untyped=True, allow_struct=True, allow_deque=Tr
     if depth >= 2 or r < 0.18:
         return gen_scalar_t(rnd)
     if allow_untyped and r < 0.30:
-        return rnd.choice([["any"], ["arr", None], ["map", None]])
+        return rnd.choice([["any"], ["any"], ["arr", None], ["map", None], ["set", False], ["deque", None]]
+                          if allow_deque else [["any"], ["any"], ["arr", None], ["map", None], ["set", False]])
     if r < 0.58:
         return ["arr", gen_type(rnd, depth + 1, allow_untyped, allow_struct, allow_deque)]
     if r < 0.70:
@@ -45,16 +47,23 @@ def gen_type(rnd, depth=0, allow_untyped=True, allow_struct=True, allow_deque=Tr
     if r < 0.75:
         return ["set", True]
     if r < 0.81:
-        return ["tuple", [gen_type(rnd, depth + 1, False, False, False) for _ in range(rnd.randint(2, 3))]]
+        return ["tuple", [gen_tuple_item(rnd, depth + 1, allow_untyped) for _ in range(rnd.randint(2, 3))]]
     if r < 0.86 and allow_deque:
         # (the regular serializer cannot serialize a Deque nested in a Tuple / positional Array: not generated)
         return ["deque", gen_type(rnd, depth + 1, allow_untyped, allow_struct, allow_deque)]
     if r < 0.90:
-        return ["arrpos", [gen_type(rnd, depth + 1, False, False, False) for _ in range(rnd.randint(1, 2))]]
+        return ["arrpos", [gen_tuple_item(rnd, depth + 1, allow_untyped) for _ in range(rnd.randint(1, 2))]]
     if r < 0.95 and allow_struct and depth < 2:
         return ["struct", [gen_type(rnd, depth + 1, allow_untyped, False, allow_deque) for _ in range(rnd.randint(1, 2))]]
     inner = gen_type(rnd, depth + 1, False, allow_struct, allow_deque)
     return ["opt", inner] if inner[0] not in ("opt", "any") else inner
+
+
+def gen_tuple_item(rnd, depth, allow_untyped):
+    """Item of a Tuple / positional Array: a typed one, or (one in four when untyped positions are allowed) Anything."""
+    if allow_untyped and rnd.random() < 0.25:
+        return ["any"]
+    return gen_type(rnd, depth, False, False, False)
 
 
 def gen_simple_type(rnd, depth=0):
@@ -125,8 +134,9 @@ def emit_aty(t):
 class ClassSpec:
     """A generated class: name, kind (plain | immutable | fast), fields [(name, aty)], inner classes."""
 
-    def __init__(self, name, kind, fields, mapper=None, defaults=None, required=None):
+    def __init__(self, name, kind, fields, mapper=None, defaults=None, required=None, immfields=None):
         self.name, self.kind, self.fields = name, kind, fields
+        self.immfields = list(immfields or [])   # fields declared with the Immutable* variant of their field class
         self.mapper = mapper or {}
         self.defaults = defaults or {}        # field -> python source of the default
         self.required = required
@@ -135,12 +145,18 @@ class ClassSpec:
 
     def to_json(self):
         return {"name": self.name, "kind": self.kind, "fields": self.fields, "mapper": self.mapper,
-                "defaults": self.defaults, "required": self.required}
+                "defaults": self.defaults, "required": self.required, "immfields": self.immfields}
 
     @staticmethod
     def from_json(o):
         return ClassSpec(o["name"], o["kind"], [tuple(f) for f in o["fields"]], o.get("mapper"), o.get("defaults"),
-                         o.get("required"))
+                         o.get("required"), o.get("immfields"))
+
+    def owner(self, fname):
+        """Who promises what about the value of this field: an ImmutableStructure, a field declared immutable, nobody."""
+        if self.kind == "immutable":
+            return "immstruct"
+        return "immfield" if fname in self.immfields else "plain"
 
     # ---- source
     def inner_name(self, t):
@@ -154,8 +170,13 @@ class ClassSpec:
         self.inner_name(t)
         return self.inner[json.dumps(t)][1]
 
-    def field_src(self, t):
+    def field_src(self, t, imm=False):
         k = t[0]
+        if imm:
+            # the library's Immutable* classes where they exist, the documented mixin recipe otherwise
+            plain = self.field_src(t)
+            cls = plain.split("(", 1)[0]
+            return IMM_CLASS[cls] + plain[len(cls):]
         if k == "int":
             return "Integer()"
         if k == "str":
@@ -187,7 +208,7 @@ class ClassSpec:
     def source(self):
         body = []
         for fname, t in self.fields:
-            src = self.field_src(t)
+            src = self.field_src(t, imm=fname in self.immfields)
             if fname in self.defaults:
                 src = src[:-1] + (", " if not src.endswith("()") else "") + "default=%s)" % self.defaults[fname]
             body.append("    %s = %s" % (fname, src))
@@ -215,7 +236,13 @@ class ClassSpec:
 
 
 IMPORTS = ("from typedpy import (Structure, ImmutableStructure, Array, Map, Set, Tuple, Deque, Integer, String, Float, "
-           "Boolean, Anything, AnyOf, NoneField, ClassReference, FastSerializable, create_serializer, DoNotSerialize)\n")
+           "Boolean, Anything, AnyOf, NoneField, ClassReference, FastSerializable, create_serializer, DoNotSerialize, "
+           "ImmutableField, ImmutableArray, ImmutableMap, ImmutableSet, ImmutableDeque)\n"
+           "class ImmutableAnything(ImmutableField, Anything): pass\n"
+           "class ImmutableTuple(ImmutableField, Tuple): pass\n")
+IMM_CLASS = {"Anything": "ImmutableAnything", "Array": "ImmutableArray", "Map": "ImmutableMap", "Set": "ImmutableSet",
+             "Deque": "ImmutableDeque", "Tuple": "ImmutableTuple"}
+IMM_ELIGIBLE = ("any", "arr", "arrpos", "map", "set", "deque", "tuple")
 
 
 def realize(spec):
@@ -231,9 +258,158 @@ def realize(spec):
 
 # ===================================================================================== values
 
-def gen_doc(rnd, t, spec):
-    """A JSON-like document value valid for type t (the Deserializer's input form)."""
+# Documents are kept JSON-able (they go into replay files).  What JSON cannot say -- the python kinds an UNTYPED
+# position may be handed: tuple, set, frozenset, deque, an object of a user class, a list / dict wrapper taken from a
+# field of some other instance -- is written {"$": kind, "v": payload} and turned into the real thing by decode().
+TAG = "$"
+
+
+class Obj:
+    """A plain user object with a (re-assignable, mutable) attribute."""
+
+    def __init__(self, items):
+        self.items = items
+
+    def __eq__(self, other):
+        return isinstance(other, Obj) and other.items == self.items
+
+    def __hash__(self):
+        return 7
+
+    def __repr__(self):
+        return "Obj(%r)" % (self.items,)
+
+
+_HOLDER = {}
+
+
+def holder():
+    """A mutable structure whose fields' wrappers (_ListStruct / _DictStruct) serve as argument values."""
+    if "cls" not in _HOLDER:
+        ns = {}
+        exec(IMPORTS + "class C19Holder(Structure):\n    arr = Array(items=Array(items=Integer()))\n"
+                       "    m = Map(items=[String(), Array(items=Integer())])\n    _required = []\n", ns)  # noqa: S102
+        _HOLDER["cls"] = ns["C19Holder"]
+    return _HOLDER["cls"]
+
+
+def T(kind, payload):
+    return {TAG: kind, "v": payload}
+
+
+def is_tagged(v):
+    return isinstance(v, dict) and TAG in v
+
+
+def decode(v):
+    """The python value a (possibly tagged) document value stands for; always a fresh object graph."""
+    if is_tagged(v):
+        kind, payload = v[TAG], v["v"]
+        if kind == "tuple":
+            return tuple(decode(x) for x in payload)
+        if kind == "set":
+            return {decode(x) for x in payload}
+        if kind == "frozenset":
+            return frozenset(decode(x) for x in payload)
+        if kind == "deque":
+            return collections.deque(decode(x) for x in payload)
+        if kind == "obj":
+            return Obj([decode(x) for x in payload])
+        if kind == "wrap-list":
+            return holder()(arr=copy.deepcopy(payload)).arr
+        if kind == "wrap-dict":
+            return holder()(m=copy.deepcopy(payload)).m
+        raise ValueError(v)
+    if isinstance(v, list):
+        return [decode(x) for x in v]
+    if isinstance(v, dict):
+        return {k: decode(x) for k, x in v.items()}
+    return v
+
+
+def has_exotic(v):
+    """Does the document contain something the serializers are not expected to cope with (anything tagged)?"""
+    if is_tagged(v):
+        return True
+    if isinstance(v, list):
+        return any(has_exotic(x) for x in v)
+    if isinstance(v, dict):
+        return any(has_exotic(x) for x in v.values())
+    return False
+
+
+def gen_hashable(rnd, depth=0):
+    r = rnd.random()
+    if depth >= 2 or r < 0.5:
+        return rnd.choice([1, 2, 5, "h", 0.5])
+    if r < 0.85:
+        return T("tuple", [gen_hashable(rnd, depth + 1) for _ in range(rnd.randint(1, 2))])
+    return T("frozenset", [gen_hashable(rnd, depth + 1) for _ in range(rnd.randint(1, 2))])
+
+
+def gen_anyval(rnd, depth=0):
+    """What a caller may hand to an untyped position: JSON-like nests, and the python kinds around them."""
+    r = rnd.random()
+    if depth >= 3 or r < 0.10:
+        return rnd.choice([1, "s", 2.5, True, None, 0, ""])
+    sub = lambda: gen_anyval(rnd, depth + 1)
+    n = rnd.randint(1, 2)
+    if r < 0.30:
+        return [sub() for _ in range(rnd.randint(0, 2))] if rnd.random() < 0.8 else copy.deepcopy(rnd.choice(JSON_NESTS))
+    if r < 0.45:
+        return {k: sub() for k in rnd.sample(["p", "q", "r"], n)}
+    if r < 0.72:
+        return T("tuple", [sub() for _ in range(rnd.randint(0, 3))])
+    if r < 0.77:
+        return T("set", [gen_hashable(rnd, 1) for _ in range(n)])
+    if r < 0.81:
+        return T("frozenset", [gen_hashable(rnd, 1) for _ in range(n)])
+    if r < 0.87:
+        return T("deque", [sub() for _ in range(n)])
+    if r < 0.92:
+        return T("obj", [sub() for _ in range(n)])
+    if r < 0.96:
+        return T("wrap-list", [[rnd.choice([1, 2, 3]) for _ in range(rnd.randint(1, 2))] for _ in range(n)])
+    return T("wrap-dict", {k: [rnd.choice([1, 2, 3])] for k in rnd.sample(["wa", "wb"], n)})
+
+
+JSON_NESTS = [{"p": [1, 2]}, [1, {"q": [2]}], [[1], [2]], {"a": {"b": [3]}}]
+UNTYPED_LISTS = [[[1], {"a": [2]}], [{"z": [1]}, [3]], [[5, 6]]]
+UNTYPED_DICTS = [{"z": [1, {"q": 2}]}, {"k": {"n": [1]}}]
+
+# the deterministic value lattice of the untyped-position stream: every python kind at the top, mutable and immutable
+# content below it, one and two levels down
+ZOO = [
+    ("scalar", 7),
+    ("list-of-scalars", [1, 2]),
+    ("list-of-lists", [[1], [2]]),
+    ("dict-of-lists", {"p": [1, 2]}),
+    ("tuple-of-scalars", T("tuple", [1, "a"])),
+    ("empty-tuple", T("tuple", [])),
+    ("tuple-of-list", T("tuple", [[1, 2, 3], "tag"])),
+    ("tuple-of-dict", T("tuple", [{"k": [1]}])),
+    ("tuple-of-set", T("tuple", [T("set", [1, 2]), 3])),
+    ("tuple-of-tuple-of-list", T("tuple", [T("tuple", ["x", [1]]), 2])),
+    ("list-of-tuple-of-list", [T("tuple", [[1], 2])]),
+    ("dict-of-tuple-of-list", {"a": T("tuple", [[1], 2])}),
+    ("set-of-scalars", T("set", [1, 2])),
+    ("set-of-tuples", T("set", [T("tuple", [1, 2])])),
+    ("frozenset-of-tuples", T("frozenset", [T("tuple", [1, 2]), 3])),
+    ("deque-of-lists", T("deque", [[1], [2]])),
+    ("tuple-of-deque", T("tuple", [T("deque", [1])])),
+    ("object", T("obj", [1, 2])),
+    ("tuple-of-object", T("tuple", [T("obj", [1]), 1])),
+    ("frozenset-of-object", T("frozenset", [T("obj", [1])])),
+    ("wrapper-list", T("wrap-list", [[1], [2]])),
+    ("wrapper-dict", T("wrap-dict", {"wa": [1]})),
+    ("tuple-of-wrapper", T("tuple", [T("wrap-list", [[1]]), 0])),
+]
+
+
+def gen_doc(rnd, t, spec, anygen=None):
+    """A document value valid for type t (the Deserializer's input form); untyped positions are filled by anygen."""
     k = t[0]
+    anyval = anygen or (lambda: copy.deepcopy(rnd.choice(JSON_NESTS)) if rnd.random() < 0.45 else gen_anyval(rnd, 1))
     if k == "int":
         return rnd.choice([0, 1, 7, -3, 12])
     if k == "str":
@@ -243,55 +419,116 @@ def gen_doc(rnd, t, spec):
     if k == "bool":
         return rnd.choice([True, False])
     if k == "any":
-        return copy.deepcopy(rnd.choice([{"p": [1, 2]}, [1, {"q": [2]}], [[1], [2]], {"a": {"b": [3]}}]))
-    if k == "arr":
+        return anyval()
+    if k in ("arr", "deque"):
         if t[1] is None:
-            return copy.deepcopy(rnd.choice([[[1], {"a": [2]}], [{"z": [1]}, [3]]]))
-        return [gen_doc(rnd, t[1], spec) for _ in range(rnd.randint(1, 3))]
-    if k == "deque":
-        if t[1] is None:
-            return copy.deepcopy(rnd.choice([[[1], {"a": [2]}], [[5, 6]]]))
-        return [gen_doc(rnd, t[1], spec) for _ in range(rnd.randint(1, 3))]
+            if anygen is None and rnd.random() < 0.4:
+                return copy.deepcopy(rnd.choice(UNTYPED_LISTS))
+            return [anyval() for _ in range(rnd.randint(1, 2))]
+        return [gen_doc(rnd, t[1], spec, anygen) for _ in range(rnd.randint(1, 3))]
     if k in ("arrpos", "tuple"):
-        return [gen_doc(rnd, x, spec) for x in t[1]]
+        return [gen_doc(rnd, x, spec, anygen) for x in t[1]]
     if k == "map":
         if t[1] is None:
-            return copy.deepcopy(rnd.choice([{"z": [1, {"q": 2}]}, {"k": {"n": [1]}}]))
-        return {key: gen_doc(rnd, t[1], spec) for key in rnd.sample(["k1", "k2", "x"], rnd.randint(1, 2))}
+            if anygen is None and rnd.random() < 0.4:
+                return copy.deepcopy(rnd.choice(UNTYPED_DICTS))
+            return {key: anyval() for key in rnd.sample(["k1", "k2", "x"], rnd.randint(1, 2))}
+        return {key: gen_doc(rnd, t[1], spec, anygen) for key in rnd.sample(["k1", "k2", "x"], rnd.randint(1, 2))}
     if k == "set":
-        return rnd.choice([[1, 2], [5], [3, 4, 9]])
+        if t[1]:
+            return rnd.choice([[1, 2], [5], [3, 4, 9]])
+        xs = [gen_hashable(rnd, 1) for _ in range(rnd.randint(1, 3))]
+        return [x for i, x in enumerate(xs) if x not in xs[:i]]
     if k == "struct":
-        return {f: gen_doc(rnd, x, spec) for f, x in spec.inner_fields(t) if not (x[0] == "opt" and rnd.random() < 0.2)}
+        return {f: gen_doc(rnd, x, spec, anygen) for f, x in spec.inner_fields(t) if not (x[0] == "opt" and rnd.random() < 0.2)}
     if k == "opt":
-        return gen_doc(rnd, t[1], spec)
+        return gen_doc(rnd, t[1], spec, anygen)
     raise ValueError(t)
 
 
 def doc_to_ctor(t, v, spec, ns):
-    """The constructor-argument form of a document value (sets, tuples, deques, nested instances)."""
+    """The constructor-argument form of a document value (sets, tuples, deques, nested instances); always fresh."""
     k = t[0]
     if v is None:
         return None
-    if k in SCALARS or k == "any":
-        return copy.deepcopy(v)
+    if k in SCALARS:
+        return v
+    if k == "any":
+        return decode(v)
     if k == "arr":
-        return copy.deepcopy(v) if t[1] is None else [doc_to_ctor(t[1], x, spec, ns) for x in v]
+        return decode(v) if t[1] is None else [doc_to_ctor(t[1], x, spec, ns) for x in v]
     if k == "deque":
-        return collections.deque(copy.deepcopy(v) if t[1] is None else [doc_to_ctor(t[1], x, spec, ns) for x in v])
+        return collections.deque(decode(v) if t[1] is None else [doc_to_ctor(t[1], x, spec, ns) for x in v])
     if k == "arrpos":
         return [doc_to_ctor(x, y, spec, ns) for x, y in zip(t[1], v)]
     if k == "tuple":
         return tuple(doc_to_ctor(x, y, spec, ns) for x, y in zip(t[1], v))
     if k == "map":
-        return copy.deepcopy(v) if t[1] is None else {kk: doc_to_ctor(t[1], x, spec, ns) for kk, x in v.items()}
+        return decode(v) if t[1] is None else {kk: doc_to_ctor(t[1], x, spec, ns) for kk, x in v.items()}
     if k == "set":
-        return set(v)
+        return set(decode(v))
     if k == "struct":
         cls = ns[spec.inner_name(t)]
         fs = dict(spec.inner_fields(t))
         return cls(**{f: doc_to_ctor(fs[f], x, spec, ns) for f, x in v.items()})
     if k == "opt":
         return doc_to_ctor(t[1], v, spec, ns)
+    raise ValueError(t)
+
+
+# ---- shapes (the model's view of an argument value: Struct/AliasIntake.v)
+
+def any_shape(v):
+    from typedpy.fields.collections_impl import _ListStruct, _DictStruct, _DequeStruct
+    if isinstance(v, (_ListStruct, _DequeStruct)):
+        return "(VWrapper %s)" % E.lst([any_shape(x) for x in (list.__iter__(v) if isinstance(v, list) else collections.deque.__iter__(v))])
+    if isinstance(v, _DictStruct):
+        return "(VWrapper %s)" % E.lst([any_shape(x) for x in dict.values(v)])
+    if is_struct(v):
+        return "VInst"
+    if isinstance(v, list):
+        return "(VList %s)" % E.lst([any_shape(x) for x in v])
+    if isinstance(v, tuple):
+        return "(VTuple %s)" % E.lst([any_shape(x) for x in v])
+    if isinstance(v, collections.deque):
+        return "(VDeque %s)" % E.lst([any_shape(x) for x in v])
+    if isinstance(v, frozenset):
+        return "(VFrozenset %s)" % E.lst(sorted(any_shape(x) for x in v))
+    if isinstance(v, set):
+        return "(VSet %s)" % E.lst(sorted(any_shape(x) for x in v))
+    if isinstance(v, dict):
+        return "(VDict %s)" % E.lst([any_shape(x) for x in v.values()])
+    if isinstance(v, Obj):
+        return "(VObj %s)" % E.lst([any_shape(v.items)])
+    return "VAtom"
+
+
+def shape_of(t, v, spec, deser):
+    """Gallina vshape of the argument object v handed to a field of type t."""
+    k = t[0]
+    if k in SCALARS:
+        return "VAtom"
+    if k == "any":
+        return any_shape(v)
+    if k == "opt":
+        return shape_of(t[1], v, spec, deser)
+    if k in ("arr", "deque", "set"):
+        con = "VDeque" if isinstance(v, collections.deque) else "VFrozenset" if isinstance(v, frozenset) else \
+            "VSet" if isinstance(v, set) else "VList"
+        if k == "set" or t[1] is None:
+            elems = [any_shape(x) for x in v]
+            return "(%s %s)" % (con, E.lst(sorted(elems) if k == "set" else elems))
+        return "(%s %s)" % (con, E.lst([shape_of(t[1], x, spec, deser) for x in v]))
+    if k in ("arrpos", "tuple"):
+        con = "VTuple" if isinstance(v, tuple) else "VList"
+        return "(%s %s)" % (con, E.lst([shape_of(x, y, spec, deser) for x, y in zip(t[1], v)]))
+    if k == "map":
+        return "(VDict %s)" % E.lst([any_shape(x) if t[1] is None else shape_of(t[1], x, spec, deser) for x in v.values()])
+    if k == "struct":
+        if is_struct(v):
+            return "VInst"
+        return "(VRec %s)" % E.lst(["(Some %s)" % shape_of(ft, v[f], spec, deser) if f in v else "None"
+                                    for f, ft in spec.inner_fields(t)])
     raise ValueError(t)
 
 
@@ -397,45 +634,108 @@ def class_fp(cls):
 
 # ===================================================================================== walking and mutating
 
-def containers(o, t, spec, chain=(), out=None, seen=None):
-    """Every mutable container reachable from o through lists / tuples / dicts / sets / deques (never through a
-    Structure instance), each with the type path that leads to it."""
+def kind_of(o):
+    """Label of an object sitting at an untyped position: its python kind."""
+    from typedpy.fields.collections_impl import _ListStruct, _DictStruct, _DequeStruct
+    if isinstance(o, (_ListStruct, _DequeStruct)):
+        return "wrapper-list"
+    if isinstance(o, _DictStruct):
+        return "wrapper-dict"
+    if is_struct(o):
+        return "instance"
+    for ty, name in ((list, "list"), (tuple, "tuple"), (collections.deque, "deque"), (frozenset, "frozenset"), (set, "set"),
+                     (dict, "dict"), (Obj, "object")):
+        if isinstance(o, ty):
+            return name
+    return "scalar"
+
+
+def containers(o, t, spec, chain=(), out=None, seen=None, into_instances=False):
+    """Every caller-mutable object reachable from o through lists / tuples / dicts / sets / frozensets / deques / plain
+    objects, each with the path that leads to it: declared types where there are any, python kinds below an untyped
+    position.  Structure instances are objects with identity, shared by design by a mutable owner: they are entered
+    (and listed) only when the owner promises a defensive copy (into_instances)."""
     out = [] if out is None else out
     seen = set() if seen is None else seen
-    if id(o) in seen or is_struct(o):
+    if id(o) in seen:
+        return out
+    if is_struct(o):
+        if into_instances:
+            seen.add(id(o))
+            out.append((o, ".".join(chain + ("instance",))))
         return out
     k = t[0] if t is not None else None
     if k == "opt":
-        return containers(o, t[1], spec, chain + ("Optional",), out, seen)
-    if isinstance(o, (list, collections.deque, set, dict)):
+        return containers(o, t[1], spec, chain + ("Optional",), out, seen, into_instances)
+    untyped = t is None or k == "any"
+    here = kind_of(o) if t is None else (label(t) + "." + kind_of(o) if k == "any" else label(t))
+    down = kind_of(o) if t is None else (leaf(t) + "." + kind_of(o) if k == "any" else leaf(t))
+    if isinstance(o, (list, collections.deque, set, dict, Obj)):
         seen.add(id(o))
-        out.append((o, ".".join(chain + (label(t),))))
-    if isinstance(o, (list, tuple, collections.deque)):
-        elems = list(o) if not isinstance(o, list) else list(list.__iter__(o))
+        out.append((o, ".".join(chain + (here,))))
+    if isinstance(o, Obj):
+        containers(o.items, None, spec, chain + (down,), out, seen, into_instances)
+    elif isinstance(o, (list, tuple, collections.deque, set, frozenset)):
+        elems = list(list.__iter__(o)) if isinstance(o, list) else list(o)
         for i, x in enumerate(elems):
-            if k in ("arr", "deque") and t[1] is not None:
+            if not untyped and k in ("arr", "deque") and t[1] is not None:
                 sub = t[1]
-            elif k in ("arrpos", "tuple") and i < len(t[1]):
+            elif not untyped and k in ("arrpos", "tuple") and i < len(t[1]):
                 sub = t[1][i]
             else:
                 sub = None
-            containers(x, sub, spec, chain + (leaf(t),), out, seen)
+            containers(x, sub, spec, chain + (down,), out, seen, into_instances)
     elif isinstance(o, dict):
         inner = dict(spec.inner_fields(t)) if k == "struct" else None
         for kk, x in list(dict.items(o)):
-            if k == "map" and t[1] is not None:
+            if not untyped and k == "map" and t[1] is not None:
                 sub = t[1]
             elif inner is not None:
                 sub = inner.get(kk)
             else:
                 sub = None
-            containers(x, sub, spec, chain + (leaf(t),), out, seen)
+            containers(x, sub, spec, chain + (down,), out, seen, into_instances)
     return out
+
+
+def mutate_instance(o):
+    """What a client does to a Structure instance it made: assign one of its fields (a valid value first)."""
+    before = snap(o)
+    for name in type(o).get_all_fields_by_name():
+        val = o.__dict__.get(name)
+        if isinstance(val, bool):
+            cands = [not val]
+        elif isinstance(val, int):
+            cands = [val + 1000]
+        elif isinstance(val, float):
+            cands = [val + 1000.5]
+        elif isinstance(val, str):
+            cands = [val + "M"]
+        elif isinstance(val, list):
+            cands = [list(list.__iter__(val)) + list(list.__iter__(val))[:1]]
+        elif isinstance(val, dict):
+            cands = [{}]
+        else:
+            cands = []
+        for c in cands:
+            try:
+                setattr(o, name, c)
+            except Exception:  # noqa
+                continue
+            if snap(o) != before:
+                return
+    for name in type(o).get_all_fields_by_name():          # no valid reassignment found: write through
+        o.__dict__[name] = MUT
+        return
 
 
 def mutate(o):
     """What a client does to an object it believes is its own: add an element (a plausible one first)."""
-    if isinstance(o, (list, collections.deque)):
+    if is_struct(o):
+        mutate_instance(o)
+    elif isinstance(o, Obj):
+        o.items = list(o.items) + [MUT]
+    elif isinstance(o, (list, collections.deque)):
         base = list if isinstance(o, list) else collections.deque
         elems = list(base.__iter__(o))
         dup = elems[0] if elems and isinstance(elems[0], (int, float, str, bool)) else MUT
@@ -467,11 +767,12 @@ def probe(objs_by_field, fp, types, spec):
     base = fp()
     hits = {}
     for fname, obj in objs_by_field.items():
-        for c, path in containers(obj, types.get(fname), spec):
+        own = spec.owner(fname)
+        for c, path in containers(obj, types.get(fname), spec, into_instances=own != "plain"):
             mutate(c)
             now = fp()
             if now != base:
-                hits.setdefault(fname, []).append(path)
+                hits.setdefault(fname, []).append(("Immutable" + path) if own == "immfield" else path)
                 base = now
     return hits
 
@@ -485,13 +786,15 @@ def kwargs_of(spec, ns, doc):
 
 def run_field_op(op, spec, doc, rnd=None, extra=None):
     """Runs one operation of the property on the real implementation.
-    Returns dict field -> (written, retained, live, detail) and a list of extra failures [(key, what)]."""
+    Returns dict field -> [written, retained, live, detail, shape of the argument] and a list of extra failures
+    [(key, what)]."""
     from typedpy import Deserializer, Serializer, serialize, deserialize_structure
     cls, ns, src = realize(spec)
     ts = dict(spec.fields)
-    res = {f: [False, False, False, []] for f, _ in spec.fields}
+    res = {f: [False, False, False, [], "VAtom"] for f, _ in spec.fields}
     extras = []
     cfp0 = class_fp(cls)
+    exotic = has_exotic(doc)
 
     def check_written(args, before, what):
         for f in args:
@@ -501,6 +804,8 @@ def run_field_op(op, spec, doc, rnd=None, extra=None):
 
     if op in ("ctor", "setattr"):
         kw = kwargs_of(spec, ns, doc)
+        for f, v in kw.items():
+            res[f][4] = shape_of(ts[f], v, spec, False)
         if op == "ctor":
             before = {f: snap(v) for f, v in kw.items()}
             x = cls(**kw)
@@ -514,7 +819,7 @@ def run_field_op(op, spec, doc, rnd=None, extra=None):
                 try:
                     setattr(x, f, v)
                 except ValueError:
-                    if spec.kind != "immutable":
+                    if spec.owner(f) == "plain":
                         raise
                 if snap(v) != b:
                     res[f][0] = True
@@ -526,7 +831,9 @@ def run_field_op(op, spec, doc, rnd=None, extra=None):
             res[f][1] = True
             res[f][3] += [("retained", p) for p in paths]
     elif op in ("deser", "deser-fn", "deser-mapper", "deser-trusted"):
-        d = copy.deepcopy(doc)
+        d = decode(doc)
+        for f, v in d.items():
+            res[f][4] = shape_of(ts[f], v, spec, True)
         before = {f: snap(v) for f, v in d.items()}
         whole = snap(d)
         mapper = None
@@ -582,20 +889,25 @@ def run_field_op(op, spec, doc, rnd=None, extra=None):
         x = cls(**kwargs_of(spec, ns, doc))
         ref = copy.deepcopy(x)
         keymap = {f: f for f, _ in spec.fields}
-        if op == "ser":
-            r = Serializer(x).serialize()
-        elif op == "ser-fn":
-            r = serialize(x)
-        elif op == "ser-fast":
-            r = x.serialize()
-        else:
-            fs = [f for f, _ in spec.fields][:2]
-            mapper = {f: f + "_out" for f in fs}
-            msnap = snap(mapper)
-            r = Serializer(x, mapper=mapper).serialize()
-            keymap.update(mapper)
-            if snap(mapper) != msnap:
-                extras.append(("writes-arg/Serializer/mapper", "Serializer modified the mapper dict it was given"))
+        try:
+            if op == "ser":
+                r = Serializer(x).serialize()
+            elif op == "ser-fn":
+                r = serialize(x)
+            elif op == "ser-fast":
+                r = x.serialize()
+            else:
+                fs = [f for f, _ in spec.fields][:2]
+                mapper = {f: f + "_out" for f in fs}
+                msnap = snap(mapper)
+                r = Serializer(x, mapper=mapper).serialize()
+                keymap.update(mapper)
+                if snap(mapper) != msnap:
+                    extras.append(("writes-arg/Serializer/mapper", "Serializer modified the mapper dict it was given"))
+        except Exception:  # noqa
+            if not exotic:
+                raise
+            return None, [], src      # a tuple / set / deque / object at an untyped position the serializers reject
         if not isinstance(r, dict):
             return None, [], src
         parts = {f: r[keymap[f]] for f in keymap if keymap[f] in r}
@@ -643,6 +955,21 @@ def run_failing(op, spec, doc, bad_field, bad_value):
         if snap(d) != before:
             fails.append(("writes-arg/Deserializer-failing", "a failing deserialization modified its input document"))
     return fails, src
+
+
+INTAKE_OPS = ("ctor", "setattr", "deser", "deser-fn", "deser-mapper")
+OWNER = {"plain": "OwnPlain", "immstruct": "OwnImmStruct", "immfield": "OwnImmField"}
+# field types with an untyped position, for the lattice stream
+LATTICE_TYPES = [["any"], ["arr", None], ["arr", ["any"]], ["map", None], ["map", ["any"]], ["deque", None], ["deque", ["any"]],
+                 ["set", False], ["tuple", [["any"], ["str"]]], ["arrpos", [["any"], ["int"]]], ["struct", [["any"], ["int"]]],
+                 ["arr", ["arr", ["any"]]], ["map", ["arr", None]], ["opt", ["arr", ["any"]]], ["arr", ["tuple", [["any"], ["int"]]]],
+                 ["arr", ["struct", [["any"]]]]]
+
+
+def zoo_hashable(v):
+    if is_tagged(v):
+        return v[TAG] in ("tuple", "frozenset") and all(zoo_hashable(x) for x in v["v"])
+    return not isinstance(v, (list, dict))
 
 
 OPID = {"ctor": "OCtor", "setattr": "OSetattr", "deser": "ODeser", "deser-fn": "ODeser", "deser-mapper": "ODeser",
@@ -891,13 +1218,14 @@ def replay(obj):
         print("operation:", obj["op"], " input (document form):", obj["doc"])
         bad = 0
         ts = dict(spec.fields)
-        for f, (w, r, l, detail) in (res or {}).items():
-            print("field %-4s %-40s written=%s retained=%s live=%s %s" % (f, json.dumps(ts[f]), w, r, l, detail))
-            if (typed_inside(ts[f]) or spec.kind == "immutable") and (w or r or l):
+        for f, (w, r, l, detail, shape) in (res or {}).items():
+            print("field %-4s %-40s owner=%-9s written=%s retained=%s live=%s %s" % (f, json.dumps(ts[f]), spec.owner(f), w, r, l, detail))
+            if (typed_inside(ts[f]) or spec.owner(f) != "plain") and (w or r or l):
                 bad += 1
         for k, what in extras:
             print("FAILS:", k, "-", what)
-        print("required: every argument equal to its snapshot, no fingerprint change under mutation (typed fields)")
+        print("required: every argument equal to its snapshot, no fingerprint change under mutation (typed fields, and "
+              "every field of an ImmutableStructure / every field declared immutable)")
         return 1 if bad or extras else 0
     if kind == "code":
         written, where, outcome = run_code_required((obj["schema"], obj["definitions"], obj["via_definitions"]))
@@ -960,16 +1288,19 @@ def run(rep, tier):
     plan = []
     for ci in range(nclasses):
         r = rnd.random()
-        kind = "plain" if r < 0.5 else ("fast" if r < 0.8 else "immutable")
+        kind = "plain" if r < 0.45 else ("fast" if r < 0.70 else "immutable")
         simple = rnd.random() < 0.2
         nf = rnd.randint(1, 4)
         name = "C19s%d_%d" % (core.seed(), ci)
+        immfields = []
         if simple:
             fields = [("f%d" % i, gen_simple_type(rnd)) for i in range(nf)]
             kind = "plain"
         else:
             fields = [("f%d" % i, gen_type(rnd, 0, allow_untyped=(kind != "fast" or rnd.random() < 0.3))) for i in range(nf)]
-        spec = ClassSpec(name, kind, fields)
+            if kind == "plain":
+                immfields = [f for f, t in fields if t[0] in IMM_ELIGIBLE and rnd.random() < 0.4]
+        spec = ClassSpec(name, kind, fields, immfields=immfields)
         doc = {}
         for f, t in fields:
             if t[0] == "opt" and rnd.random() < 0.15:
@@ -981,6 +1312,24 @@ def run(rep, tier):
         if simple:
             ops.append("deser-trusted")
         plan.append((spec, doc, ops))
+    nrandom = len(plan)
+    # the untyped-position lattice (deterministic): owner kind x field type with an untyped position x python kind of
+    # the value sitting there x intake operation
+    li = 0
+    for owner in ("plain", "immstruct", "immfield"):
+        for t in LATTICE_TYPES:
+            if owner == "immfield" and t[0] not in IMM_ELIGIBLE:
+                continue
+            for zname, zval in ZOO:
+                if t[0] == "set" and not zoo_hashable(zval):
+                    continue
+                li += 1
+                spec = ClassSpec("C19z%d_%d" % (core.seed(), li), "immutable" if owner == "immstruct" else "plain",
+                                 [("f0", ["int"]), ("f1", t)], immfields=["f1"] if owner == "immfield" else [])
+                doc = {"f0": 3, "f1": gen_doc(rnd, t, spec, anygen=lambda zval=zval: copy.deepcopy(zval))}
+                ops = ["ctor", "deser"] + (["setattr"] if owner != "immstruct" and li % 3 == 0 else []) + \
+                      (["ser"] if li % 4 == 0 else [])
+                plan.append((spec, doc, ops))
 
     for spec, doc, ops in plan:
         ts = dict(spec.fields)
@@ -995,17 +1344,25 @@ def run(rep, tier):
             if res is None:
                 rep.stat(op, "not-applicable")
                 continue
-            for f, (w, r, l, detail) in res.items():
+            for f, (w, r, l, detail, shape) in res.items():
                 if f not in doc:
                     continue
                 t = ts[f]
-                inside = typed_inside(t) or spec.kind == "immutable"
-                rep.count(op, 1, (op, spec.kind, json.dumps(t)) if t[0] not in SCALARS else None)
+                own = spec.owner(f)
+                inside = typed_inside(t) or own != "plain"
+                rep.count(op, 1, (op, spec.kind, own, json.dumps(t), shape) if t[0] not in SCALARS else None)
                 rep.stat(op, "field-kind:" + leaf(t))
-                rep.stat(op, "scope:" + ("typed" if inside else "untyped-by-design"))
-                add_case("(CField %s %s %s %s)" % (opid_of(op, spec.kind), E.blit(spec.kind == "immutable"), emit_aty(t), obs_lit(w, r, l)),
-                         {"kind": "field", "spec": spec.to_json(), "op": op, "doc": doc, "field": f, "type": t,
-                          "observed": [w, r, l], "detail": detail, "py_violates": inside and (w or r or l)})
+                rep.stat(op, "owner:" + own)
+                rep.stat(op, "scope:" + ("typed" if typed_inside(t) else "untyped-in-immutable-owner" if inside else "untyped-by-design"))
+                desc = {"kind": "field", "spec": spec.to_json(), "op": op, "doc": doc, "field": f, "type": t, "owner": own,
+                        "observed": [w, r, l], "detail": detail, "py_violates": inside and (w or r or l)}
+                if op in INTAKE_OPS:
+                    if not typed_inside(t):
+                        for kk in sorted(set(re.findall(r"V[A-Z][a-z]+", shape))):
+                            rep.stat(op, "untyped-position-value-contains:" + kk)
+                    add_case("(CIntake %s %s %s %s %s)" % (OPID[op], OWNER[own], emit_aty(t), shape, obs_lit(w, r, l)), desc)
+                else:
+                    add_case("(CField %s %s %s %s)" % (opid_of(op, spec.kind), E.blit(own != "plain"), emit_aty(t), obs_lit(w, r, l)), desc)
                 if (w or r or l):
                     rep.stat(op, "effect:" + ",".join(sorted({k for k, _ in detail})) + ("" if inside else "(untyped)"))
                 if inside:
@@ -1040,6 +1397,8 @@ def run(rep, tier):
                 rep.finding("C19/" + k, what, {"kind": "field", "spec": spec.to_json(), "op": "ctor" if op == "ctor-fail" else "deser",
                                                "doc": dict(doc, **{f: bad}), "python": python_src(src, op, doc)})
     rep.sample({"class": plan[0][0].source(), "document": plan[0][1], "operations": plan[0][2]})
+    rep.sample({"class": plan[nrandom + 30][0].source(), "document": plan[nrandom + 30][1], "operations": plan[nrandom + 30][2]})
+    rep.cov["streams"].setdefault("lattice", {})["classes"] = len(plan) - nrandom
 
     # ---------------------------------------------------------------- schema_to_struct_code / schema_definitions_to_code
     ncode = 300 if tier == "quick" else 3000
